@@ -306,6 +306,15 @@ func (g *zoneGen) finish() {
 var poisonOwners = []string{"evil.test", "p.evil.test", "a.test.evil.test"}
 
 func (g *zoneGen) poison() {
+	if core.Chance(g.r, 1, 3) {
+		// an unrelated owner's CNAME followed by records at its target: a
+		// resolver that follows any CNAME in the answer ends up at the attacker's data
+		sink := "sink.evil.test"
+		g.z.Poison = append(g.z.Poison, simdoh.RR{Name: core.Pick(g.r, poisonOwners), Type: simdoh.TypeCNAME, TTL: g.ttl(), Target: sink})
+		g.z.Poison = append(g.z.Poison, simdoh.RR{Name: sink, Type: simdoh.TypeA, TTL: g.ttl(), IP: "6.6.6.200"})
+		g.z.Poison = append(g.z.Poison, simdoh.RR{Name: sink, Type: simdoh.TypeAAAA, TTL: g.ttl(), IP: "2001:db8:bad::200"})
+		g.z.Poison = append(g.z.Poison, simdoh.RR{Name: sink, Type: simdoh.TypeHTTPS, TTL: g.ttl(), Target: "", Svc: &simdoh.Svc{Priority: 1, ALPN: []string{"evil"}, ECH: []byte("EVIL-ECH-VIA-CNAME")}})
+	}
 	n := core.Between(g.r, 1, 3)
 	for i := 0; i < n; i++ {
 		owner := core.Pick(g.r, poisonOwners)
